@@ -623,3 +623,7 @@ CHECKS["C14"]["status"] += ("; a task whose body disposes the scope it was spawn
     "afterwards no task of the disposed subtree (the task itself included) is pending or ever polled again for EVERY later event sequence (C14_suicide_no_poll_after), surviving "
     "boundaries are released; with await points left the step equals a completion followed by a disposal (C14_suicide_as_two_steps'), at the last await point up to the counters of dead boundaries "
     "(C14_suicide_as_two_steps_obs); stepX [] = step")
+
+# a context lookup made while a scope is torn down (by a cleanup) belongs to C16 and to C11 ("without corruption")
+CHECKS["C16"]["classes"] = CHECKS["C16"]["classes"] + ["context-in-teardown"]
+CHECKS["C11"]["classes"] = CHECKS["C11"]["classes"] + ["context-in-teardown"]
